@@ -35,18 +35,21 @@ func C07() *runner.Property {
 		Cases: func(tier string, seed int64) []runner.Case {
 			var cs []runner.Case
 			r := rng.New(uint64(seed) ^ 0xC07)
-			n := map[string]int{"small": 600, "lens": 300, "many": 24, "big": 6, "longnames": 24}
+			n := map[string]int{"small": 600, "lens": 300, "many": 24, "big": 6, "longnames": 24, "hugeval": 8}
 			re := 2
 			if tier == "thorough" {
-				n = map[string]int{"small": 20000, "lens": 8000, "many": 400, "big": 40, "longnames": 400}
+				n = map[string]int{"small": 20000, "lens": 8000, "many": 400, "big": 40, "longnames": 400, "hugeval": 40}
 				re = 3
 			}
-			for _, cl := range []string{"small", "lens", "many", "big", "longnames"} {
+			for _, cl := range []string{"small", "lens", "many", "big", "longnames", "hugeval"} {
 				for i := 0; i < n[cl]; i++ {
 					g := GenParams{Seed: r.U64(), Class: cl, Sized: i%2 == 0}
 					rr := re
-					if cl == "big" || cl == "many" {
+					if cl == "big" || cl == "many" || cl == "hugeval" {
 						rr = 1
+					}
+					if cl == "hugeval" || cl == "big" {
+						g.Frac = []int{0, 40, 0, 10}[i%4]
 					}
 					cs = append(cs, runner.MkCase(cl, fmt.Sprintf("%d", i), c07Params{Gen: g, Reenc: rr}))
 				}
@@ -61,6 +64,10 @@ func runC07(c runner.Case, env *runner.Env) (res runner.Result) {
 	var p c07Params
 	runner.Params(c, &p)
 	s := Gen(p.Gen)
+	lsx.SizeFrac = 1.0
+	if p.Gen.Frac > 0 {
+		lsx.SizeFrac = float64(p.Gen.Frac) / 100
+	}
 	res.Sample = map[string]any{"case": c.ID, "gen": p.Gen, "snapshot": Summary(s)}
 	for _, d := range s.DBIs {
 		if len(d.Entries) > 0 {
